@@ -494,6 +494,10 @@ class DirectoryRecord:
 
         self.dr_len += (self.dr_len % 2)
 
+        if self.dr_len > 255:
+            # The length of a Directory Record is recorded in a single byte.
+            raise pycdlibexception.PyCdlibInvalidInput('The identifier is too long to fit into a directory record')
+
         if self.is_root:
             self._printable_name = '/'.encode(vd.encoding)
         elif self.file_ident == b'\x00':
